@@ -30,7 +30,9 @@ def CErr.toString : CErr → String
   | .overflow => "panic" | .gap => "gap"
 
 /-- a native value as returned by `Getter.Get` / held by the caller: a plain object or a stream.
-    `enc` is `x.crypt != nil` (the stream was read from an encrypted file); `data` are the bytes
+    `enc` is `x.crypt != nil`: the stream was read from an encrypted file and is not exempt — with
+    /EncryptMetadata false the Reader reads the catalog's /Metadata stream (that reference only,
+    whatever the /Type of other streams) without a decryption filter; `data` are the bytes
     `RawStreamReader` yields (after decryption, before filter decoding). -/
 inductive Val where
   | obj (o : Obj)
